@@ -298,7 +298,7 @@ func (c *Ctx) freshParty(kind string) *party {
 	case "ssh-ed25519":
 		return sshEdParty(c.rng.bytes(32))
 	case "ssh-rsa":
-		return sshRSAParty(c.model, c.rng.intn(3))
+		return sshRSAParty(c.model, c.rng.intn(4))
 	case "grease":
 		return stubParty([]*age.Stanza{greaseStanza(c.rng)}, nil, false, false)
 	}
